@@ -106,12 +106,23 @@ fn check_gaps(heights: &[u64]) -> Result<(), String> {
     Ok(())
 }
 
+struct TempDbGuard(std::path::PathBuf);
+
+impl Drop for TempDbGuard {
+    fn drop(&mut self) {
+        let _ = std::fs::remove_dir_all(&self.0);
+    }
+}
+
 fn exec(case: &LocCase, st: &mut Stats) -> Verdict {
     vensure!(case.main_len >= 1 && case.main_len <= 400, "replay-format", "main_len out of range");
     let (shared, mut pack) = SharedBuilder::with_temp_db()
         .consensus(always_success_consensus())
         .build()
         .map_err(|e| Violation::new("locator:setup", format!("SharedBuilder: {e:?}")))?;
+    // `with_temp_db` keeps every database of the process under one static TempDir that is never
+    // dropped: unlink this case's database when the case ends (the open handles keep working)
+    let _db_guard = TempDbGuard(shared.store().db().inner().path().to_path_buf());
     let chain_scope = ChainServiceScope::new(pack.take_chain_services_builder());
     let chain = chain_scope.chain_controller();
     let genesis = shared.consensus().genesis_block().clone();
